@@ -205,6 +205,13 @@ impl FilterProtocol {
                     }
                 })
                 .collect::<Vec<_>>();
+            // (the candidates come out of a std HashMap: fix their order for reproducible runs)
+            #[cfg(feature = "verif")]
+            let best_peers = {
+                let mut best_peers = best_peers;
+                best_peers.sort_by_key(|peer_index| peer_index.value());
+                best_peers
+            };
             if let Some(peer) = best_peers.choose(&mut rand::thread_rng()).cloned() {
                 self.send_get_block_filter_hashes(Arc::clone(&nc), peer, start_number);
             }
